@@ -840,3 +840,78 @@ Proof.
     assert (bflag G d P (tau ++ [y]) <> None); [|congruence].
     apply (bflag_facet G d P rho); [rewrite E; discriminate | apply facets_snoc_in; exact Hin | destruct tau; discriminate].
 Qed.
+
+(* ------------------------------------------------------------------------------------------------ final statements *)
+Lemma flag_dim_small G d s : lenZ s <= 2 -> 1 <= d -> flag G 1 s = flag G d s.
+Proof.
+  intros Hl Hd. unfold flag. destruct (Z.leb_spec (lenZ s) (1 + 1)), (Z.leb_spec (lenZ s) (d + 1)); try lia. reflexivity.
+Qed.
+Lemma flag_long G s : 3 <= lenZ s -> flag G 1 s = None.
+Proof. intro H. unfold flag. destruct (Z.leb_spec (lenZ s) (1 + 1)); [lia|]. rewrite andb_false_r. reflexivity. Qed.
+
+Theorem blockers_maximal G st d P : edges_okb G = true -> ins_graph G = Some st -> 2 <= d ->
+  let r := fst (exp_blockers P true st d) in
+  wf (tree r) /\ forall s, lookup (abs (tree r)) s = bflag G d P s.
+Proof.
+  intros Hok Hi Hd. destruct (graph_flag1 G st Hok Hi) as (W & F & _).
+  assert (wf (tree (fst (exp_blockers P true st d))) /\ forall rho, find_val rho (tree (fst (exp_blockers P true st d))) = bflag G d P rho) as [W' F'].
+  { apply (blockers_rule P d (bflag G d P)); auto.
+    - intros sigma w y. apply bflag_rule.
+    - intros sigma q Hn H. apply bflag_prefix; auto.
+    - apply bflag_sorted.
+    - intros rho Hl. rewrite <- find_abs by exact W. rewrite F. rewrite bflag_small by (unfold lenZ; lia).
+      apply flag_dim_small; [unfold lenZ; lia | lia].
+    - intros rho Hl. rewrite <- find_abs by exact W. rewrite F. apply flag_long. unfold lenZ; lia. }
+  cbv zeta. split; [exact W'|]. intro s. rewrite find_abs by exact W'. apply F'.
+Qed.
+
+Lemma bflag_never G d : forall n s, length s = n -> bflag G d (fun _ _ => false) s = flag G d s.
+Proof.
+  induction n as [|n IH]; intros s Hn.
+  - destruct s; [|discriminate]. reflexivity.
+  - rewrite bflag_unfold. destruct (flag G d s) as [v|] eqn:Ef; [|reflexivity]. cbn [is_some andb negb].
+    assert (v = fval G s) as -> by (unfold flag in Ef; destruct (_ && _ && _ && _); inversion Ef; reflexivity).
+    destruct (Z.leb_spec (lenZ s) 2) as [Hl|Hl]; [reflexivity|]. cbn [orb].
+    assert (forallb (fun phi => is_some (bflag G d (fun _ _ => false) phi)) (facets s) = true) as ->; [|reflexivity].
+    apply forallb_forall. intros phi Hin. pose proof (facets_length s phi Hin) as Hlen.
+    rewrite (IH phi) by lia.
+    assert (flag G d phi <> None) as Hf.
+    { apply (flag_facet G d s phi); [rewrite Ef; discriminate | exact Hin |]. destruct phi; [|discriminate]. cbn in Hlen. unfold lenZ in Hl. lia. }
+    destruct (flag G d phi); [reflexivity | congruence].
+Qed.
+Theorem blockers_never_block G st d : edges_okb G = true -> ins_graph G = Some st -> 2 <= d ->
+  let r := fst (exp_blockers (fun _ _ => false) true st d) in
+  wf (tree r) /\ (forall s, lookup (abs (tree r)) s = flag G d s) /\
+  (forall s, lookup (abs (tree r)) s = lookup (abs (tree (expansion st d))) s).
+Proof.
+  intros Hok Hi Hd. destruct (blockers_maximal G st d (fun _ _ => false) Hok Hi Hd) as [W F]. cbv zeta in *.
+  destruct (expansion_flag G st d Hok Hi Hd) as (_ & Fe & _).
+  split; [exact W | split]; intro s; rewrite F, (bflag_never G d (length s) s eq_refl); [reflexivity | symmetry; apply Fe].
+Qed.
+
+(* bflag is the largest subcomplex of the flag complex without blocked simplex (of dimension >= 2) *)
+Theorem bflag_is_subcomplex G d P s : bflag G d P s <> None ->
+  flag G d s <> None /\ (forall phi, In phi (facets s) -> phi <> [] -> bflag G d P phi <> None) /\
+  (3 <= lenZ s -> P s (fval G s) = false).
+Proof.
+  intro H. split; [apply (bflag_flag G d P); exact H | split; [intros phi Hin Hn; apply (bflag_facet G d P s); auto|]].
+  intro Hl. rewrite bflag_unfold in H. destruct (is_some (flag G d s)); [|cbn in H; congruence]. cbn [andb] in H.
+  destruct (Z.leb_spec (lenZ s) 2); [lia|]. cbn [orb] in H. destruct (P s (fval G s)); [cbn in H; congruence | reflexivity].
+Qed.
+Theorem bflag_largest G d P (K : simplex -> bool) :
+  (forall s, K s = true -> flag G d s <> None) ->
+  (forall s phi, K s = true -> In phi (facets s) -> phi <> [] -> K phi = true) ->
+  (forall s, K s = true -> 3 <= lenZ s -> P s (fval G s) = false) ->
+  forall s, K s = true -> bflag G d P s <> None.
+Proof.
+  intros K1 K2 K3. assert (forall n s, length s = n -> K s = true -> bflag G d P s <> None) as H; [|intros s; apply (H (length s) s eq_refl)].
+  induction n as [|n IH]; intros s Hn Hk.
+  - destruct s; [|discriminate]. exfalso. apply (K1 [] Hk). reflexivity.
+  - rewrite bflag_unfold. pose proof (K1 s Hk) as Hf. destruct (flag G d s); [|congruence]. cbn [is_some andb].
+    destruct (Z.leb_spec (lenZ s) 2) as [Hl|Hl]; [cbn; discriminate|]. cbn [orb].
+    rewrite (K3 s Hk) by lia. cbn [negb andb].
+    assert (forallb (fun phi => is_some (bflag G d P phi)) (facets s) = true) as ->; [|discriminate].
+    apply forallb_forall. intros phi Hin. pose proof (facets_length s phi Hin) as Hlen.
+    assert (phi <> []) as Hp by (destruct phi; [cbn in Hlen; unfold lenZ in Hl; lia | discriminate]).
+    pose proof (IH phi ltac:(lia) (K2 s phi Hk Hin Hp)). destruct (bflag G d P phi); [reflexivity | congruence].
+Qed.
